@@ -673,6 +673,9 @@ impl<'de> Deserializer<'de> {
         let id = PrincipalBytes::read(&mut self.input)?;
         let len = self.read_len()?;
         let meth = self.borrow_bytes(len)?;
+        // The method name is text: reject invalid UTF-8 here, so that it is also
+        // rejected when the reference is skipped and no visitor looks at it.
+        std::str::from_utf8(meth).map_err(Error::msg)?;
         self.add_cost(
             std::cmp::max(30, id.len as usize)
                 .saturating_add(len)
